@@ -49,8 +49,8 @@ Definition num_f (n : num) : float := match n with NI z => f_of_Z z | NF f => f 
 
 Definition f_floor (x : float) : float :=
   let r := f_rint x in if f_gt r x then (r - 1)%float else r.
-Definition f_ceil (x : float) : float :=
-  let r := f_rint x in if f_lt r x then (r + 1)%float else r.
+(* ceil x = - floor (- x): keeps the sign of zero results (np.ceil(-0.6) = -0.0) *)
+Definition f_ceil (x : float) : float := (- f_floor (- x))%float.
 
 Fixpoint mapM {A B} (f : A -> res B) (l : list A) : res (list B) :=
   match l with
@@ -632,9 +632,14 @@ Section Arith.
 
     (** declare_channel: not decorated; always executes on the template and
         always logs to [_calls]; in a parametrized sequence the initial target
-        is issued as a separate stored [target] call *)
-    Definition tstep_declare (t : tmpl) (h : heap) (nm cid : value) (it : parg) : tmpl * res unit :=
-      if parg_param it then (t, Err EType)
+        of a Local channel is issued as a separate stored [target] call *)
+    Definition tstep_declare (t : tmpl) (h : heap) (glob : bool) (nm cid : value) (it : parg) : tmpl * res unit :=
+      if parg_param it then
+        (* the declaration itself is validated first (call 99: validate only) *)
+        match cstep (t_live t) (99, [nm; cid]) with
+        | Err e => (t, Err e)
+        | Ok _ => (t, Err EType)
+        end
       else
         match lit_of it with
         | None => (t, Err EOther)
@@ -653,6 +658,10 @@ Section Arith.
                   match itv with
                   | VS (-1) => (t_log_call t1 decl, Ok tt)
                   | _ =>
+                    if glob then
+                      (* Global channel: the initial target is ignored and stays in the log *)
+                      (t_log_call t1 (mkPcall C_DECLARE [ALit nm; ALit cid; ALit itv]), Ok tt)
+                    else
                       let tc := mkPcall C_TARGET [ALit itv; ALit nm] in
                       let '(t2, r) := tstep_store t1 h tc tc in
                       match r with
@@ -799,6 +808,71 @@ Section Arith.
               | Ok s' => direct_run deep vs h s' r
               end
           end
+      end.
+
+    (** Sequence.build with every cache lookup replaced by the pure meaning
+        of the object: the reference the real [build] is compared with *)
+    Definition build_spec (t : tmpl) (s0 : S) (mappable : option (list Z * Z))
+               (vs : vstore) (h : heap) (qubits : option (list (Z * Z))) (env : list (Z * list num))
+      : res S :=
+      match mappable, qubits with
+      | Some _, None => Err EValue
+      | None, Some _ => Err EValue
+      | _, _ =>
+          if negb (cross_check t env) then Err EType
+          else
+            match replay s0 (t_calls t) with
+            | Err e => Err e
+            | Ok s1 =>
+                if t_building t && (match mappable with None => true | Some _ => false end)
+                then Ok s1
+                else
+                  let '(vs1, ra) := assign_all vs (env_known t env) in
+                  match ra with
+                  | Err e => Err e
+                  | Ok _ =>
+                      match (match mappable, qubits with
+                             | Some (declared, ntraps), Some (q :: qs) =>
+                                 match build_register declared ntraps (q :: qs) with
+                                 | Err e => Err e
+                                 | Ok reg => cset_reg s1 reg
+                                 end
+                             | _, _ => Ok s1
+                             end) with
+                      | Err e => Err e
+                      | Ok s2 => direct_run false vs1 h s2 (t_tobuild t)
+                      end
+                  end
+            end
+      end.
+
+    (** ** Issued calls (what the user typed) and the template they produce *)
+    Inductive icall :=
+    | IStore (c logged : pcall)
+    | IDeclare (glob : bool) (nm cid : value) (it : parg).
+
+    Definition tstep (t : tmpl) (h : heap) (ic : icall) : tmpl * res unit :=
+      match ic with
+      | IStore c l => tstep_store t h c l
+      | IDeclare g nm cid it => tstep_declare t h g nm cid it
+      end.
+
+    (** runs a history; [true] iff no call raised *)
+    Fixpoint trun (t : tmpl) (h : heap) (hist : list icall) : tmpl * bool :=
+      match hist with
+      | [] => (t, true)
+      | ic :: r =>
+          let '(t1, res1) := tstep t h ic in
+          match res1 with
+          | Ok _ => trun t1 h r
+          | Err _ => let '(t2, _) := trun t1 h r in (t2, false)
+          end
+      end.
+
+    Definition issued (ic : icall) : pcall :=
+      match ic with
+      | IStore c _ => c
+      | IDeclare _ nm cid it => mkPcall C_DECLARE [ALit nm; ALit cid; it]
       end.
 
   End Template.
